@@ -66,6 +66,7 @@ type Run struct {
 	distinct map[string]map[[8]byte]struct{}
 	caseIdx  int
 	sigSeen  map[string]bool
+	inCase   string
 	maxSamp  int
 }
 
@@ -178,8 +179,11 @@ func (r *Run) runCase(name string, bubble bool, fn func(c *Case)) {
 	r.res.Cases++
 	r.mu.Unlock()
 	c := &Case{R: r, Name: name, T: r.T}
+	r.inCase = name
+	normal := false
 	defer func() {
 		if p := recover(); p != nil {
+			normal = true
 			msg := fmt.Sprint(p)
 			st := string(debug.Stack())
 			sig := "panic/" + normPanic(msg, st)
@@ -191,6 +195,9 @@ func (r *Run) runCase(name string, bubble bool, fn func(c *Case)) {
 			}
 			c.Violation(sig, msg+"\n"+trimStack(st), nil)
 		}
+		if normal {
+			r.inCase = ""
+		}
 	}()
 	if bubble {
 		synctest.Test(r.T, func(t *testing.T) {
@@ -200,6 +207,7 @@ func (r *Run) runCase(name string, bubble bool, fn func(c *Case)) {
 	} else {
 		fn(c)
 	}
+	normal = true
 }
 
 var reHex = regexp.MustCompile(`0x[0-9a-f]+|\b\d+\b`)
@@ -349,11 +357,14 @@ func (r *Run) Finish() {
 			r.res.Distinct[name] = l
 		}
 	}
-	// A test that was failed from outside the monitors (synctest fails the
-	// outer T and ends it via Goexit as soon as the race detector reported
-	// something inside a bubble) has not run all of its cases: the shard must
-	// not count as completed.
-	r.res.Completed = !(r.outPath != "" && r.T.Failed())
+	// A case that is still open when Finish runs was left by runtime.Goexit:
+	// synctest fails the outer T and ends it via FailNow as soon as the race
+	// detector reported something inside a bubble.  The remaining cases of
+	// this shard have not run, so it must not count as completed.
+	r.res.Completed = r.inCase == ""
+	if r.inCase != "" {
+		r.res.Inconcl = append(r.res.Inconcl, "test ended from outside the monitors inside case "+r.inCase+" (e.g. race report inside a synctest bubble); the remaining cases of this shard did not run")
+	}
 	if r.caseLog != nil {
 		fmt.Fprintf(r.caseLog, "#done\n")
 		r.caseLog.Close()
